@@ -23,22 +23,25 @@ extern "C" void h_EntityWfState()
 /* final state assignment of ReadInstance: a working-session file keeps the state read from the letter */
 extern "C" void h_ReadInstance_state()
 {
-    IN(int, in_sev); IN(int, in_state); IN(int, in_ftype);
+    IN(int, in_sev); IN(int, in_state); IN(int, in_ftype); IN(int, in_incr); IN(int, in_id);
+    __CPROVER_assume(in_incr >= 0 && in_incr <= 1000000000 && in_id >= 0 && in_id <= 1000000000);
     STEPfile *f = mk_file();
     MgrNode *node = mk_node();
     __CPROVER_assume(in_sev >= SEVERITY_MAX && in_sev <= SEVERITY_NULL);
     __CPROVER_assume(in_state == completeSE || in_state == incompleteSE || in_state == newSE || in_state == deleteSE);
     __CPROVER_assume(in_ftype == VERSION_CURRENT || in_ftype == WORKING_SESSION);
-    f->_fileType = (FileTypeCode)in_ftype; f->_strict = false; f->_fileIdIncr = 0;
+    f->_fileType = (FileTypeCode)in_ftype; f->_strict = false; f->_fileIdIncr = in_incr;
     node->currState = (stateEnum)in_state; node->se = (SDAI_Application_instance *)malloc(sizeof(SDAI_Application_instance));
     if (in_ftype == VERSION_CURRENT) __CPROVER_assume(in_state == newSE);   /* pass 2 of an exchange file works on the nodes pass 1 created */
-    g_node = node; g_read_sev = (Severity)in_sev; g_read_calls = 0; g_int_value = 5;
+    g_node = node; g_read_sev = (Severity)in_sev; g_read_calls = 0; g_int_value = in_id;
     /* "#5 = ( ... ) ;" : the '=' and the '(' that select the reading path, everything else is read by the stubs */
     g_stream_arbitrary = 0; g_stream_script[0] = '='; g_stream_script[1] = '('; g_stream_script[2] = ';'; g_stream_len = 3;
     istream in; in._m_state = 0; in._m_have = 0; in._m_consumed = 0;
     ostream out; std::string cmt;
     SDAI_Application_instance *r = f->ReadInstance(in, out, cmt, true);
+    __CPROVER_assert(g_find_id == in_id + in_incr, "C14 an instance #n of a file read with id offset k is looked up as instance n+k");
     if (g_read_calls == 1) {
+        __CPROVER_assert(g_read_id == in_id + in_incr && g_read_incr == in_incr && g_read_mgr == &f->_instances, "C14 the instance is read under its shifted id, and the same offset is handed down for the references inside it");
         if (in_ftype == WORKING_SESSION)
             __CPROVER_assert(node->currState == (stateEnum)in_state, "C16 reading a working-session instance keeps the editing state given by its state letter, whatever the read severity");
         else if (in_sev == SEVERITY_NULL || in_sev == SEVERITY_USERMSG)
@@ -49,7 +52,6 @@ extern "C" void h_ReadInstance_state()
 }
 
 /* the writer emits, for the i-th node in order, the letter of its state and then the instance; nodes without a state are skipped */
-static char g_letters[8]; static int g_nletters;
 extern "C" void h_WriteWorkingData()
 {
     IN(int, in_n); IN(int, in_s0); IN(int, in_s1); IN(int, in_s2);
@@ -65,4 +67,32 @@ extern "C" void h_WriteWorkingData()
     f->WriteWorkingData(out, 0);
     __CPROVER_assert(g_write_calls == in_n, "C16 every instance that has a state is written exactly once");
     for (int i = 0; i < 3; i++) if (i < in_n) __CPROVER_assert(g_written[i] == (SDAI_Application_instance *)&raw_inst[i], "C16 instances are written in manager order");
+    /* transcript: "DATA;\n", then one state letter in front of every instance, then "ENDSEC;\n" */
+    __CPROVER_assert(out._m_written == (unsigned long)in_n + 2 && out._m_logc[0] == 'S' && out._m_logc[in_n + 1] == 'S', "C16 the data section holds one state letter per instance between DATA; and ENDSEC;");
+    for (int i = 0; i < 3; i++) if (i < in_n) {
+        char want = st[i] == completeSE ? wsSaveComplete : st[i] == incompleteSE ? wsSaveIncomplete : st[i] == newSE ? wsNew : wsDelete;
+        __CPROVER_assert(out._m_logc[i + 1] == want, "C16 every instance is written behind the letter of its own editing state (the letter EntityWfState maps back to that state)");
+    }
+}
+
+/* C14: the offset chosen for an appended file is larger than every id already in the session (and a multiple of 1000);
+ * an empty session gets offset 0 */
+extern "C" void h_SetFileIdIncrement()
+{
+    IN(int, in_max); IN(int, in_id);
+#ifdef VERIF_TIER_THOROUGH
+#define MAXID_BOUND 2000000000
+#else
+#define MAXID_BOUND 1048575
+#endif
+    __CPROVER_assume(in_max >= -1 && in_max <= MAXID_BOUND && in_id >= 0 && in_id <= 100000000);
+    STEPfile *f = mk_file();
+    g_max_id = in_max; f->_fileIdIncr = 7;
+    f->SetFileIdIncrement();
+    if (in_max < 0) __CPROVER_assert(f->_fileIdIncr == 0, "an empty session reads ids unshifted");
+    else {
+        __CPROVER_assert(f->_fileIdIncr > in_max, "C14 the common offset of an appended file is larger than every earlier id");
+        __CPROVER_assert(f->_fileIdIncr % 1000 == 0 && f->_fileIdIncr - in_max <= 2099, "the offset is the next multiple of 1000 with a gap of at least 1000 ids");
+        __CPROVER_assert(f->IncrementFileId(in_id) == in_id + f->_fileIdIncr && f->IncrementFileId(in_id) > in_max, "C14 every id of the appended file is shifted by that one offset and so lies above every earlier id");
+    }
 }
